@@ -2843,6 +2843,11 @@ def groupby_reduce(
             preferred_method = "map-reduce"
             chunks_cohorts = {}
 
+        if method is None and reindex.blockwise is True and not any_by_dask:
+            # the user asked to reindex at the blockwise stage: of the plans for
+            # in-memory labels only map-reduce can do that
+            preferred_method = "map-reduce"
+
         method = _choose_method(method, preferred_method, agg, by_, nax)
 
         if method == "cohorts" and not chunks_cohorts:
